@@ -18,6 +18,7 @@ CLAIMED.update({
     "C01": {"level": "proof", "text": "The code emitted by the real generate() of every Expression subclass (obtained on every run by calling the real generator with stub children), by Rule.generate (12 modifier/name instances), generate_parse_trivia (8 configurations) and the emitted parse() entry point is proved to refine the same contract K as the interpreter's parse() - result, position, stacks, atomic depth, tags, furthest-failure bookkeeping, delivered pairs - for all inputs, start positions, states and child behaviours, with the result flag unassigned at entry and junk left by failing children. 3400+ obligations. Module assembly and byte-identical regeneration are bounded structural checks.", "design_ref": "DESIGN.md section 4 / C01", "note": NOTE.replace(" Generated-code side of this property is carried by C01.", "") + " Bounded: arity of unrolled Sequence/Choice templates (0..3 quick, 0..5 thorough), catalogue of terminal parameters, structural module checks.", "technique": TECH},
     "C13": {"level": "proof", "text": "ParserState.fail's real body is proved (6 instances of force/rule_name) to keep furthest_pos = max(furthest_pos, pos) inside {-1} + [start_pos, len(input)], to be silent when suppressed or inside a negative predicate, to leave position/stacks/counters untouched and to add only the given rule name (or the name on top of the rule stack) and label to the expected/unexpected maps; ParserState.__init__ establishes the initial state; error_context returns the line/column of the failure position (C14's Spec) and that line, for all texts and offsets. With the furthest-position clauses of every operator proof (C01, C03-C05) the position claim holds for all grammars and inputs. Rendering totality of detailed_message/expected/expected_labels/join_with_limit is a bounded run-time stand-in (closures, str.join, itertools.chain are outside the dialect).", "design_ref": "DESIGN.md section 4 / C13", "note": "Trusted: pyvc's encoding (dicts abstracted as key/label sequences), z3/cvc5, C14's splitlines contract, rstrip opaque, frame argument that rule-stack entries are grammar rules. Not proved: message rendering totality (bounded stand-in over 7 texts x all positions x 12 map shapes).", "technique": TECH},
     "C14": {"level": "proof", "text": "Position.line_col / line_of, Span.lines / __str__ / as_str / start_pos / end_pos / split and Pair.span / line_col are executed symbolically from the current source for an arbitrary text and arbitrary offsets 0 <= p <= len and proved against the declarative line/column Spec of the property (1 + number of line breaks before p, distance from the last line break; the lines a span touches); the splitlines scan by loop invariant. No bound on text length.", "design_ref": "DESIGN.md section 4 / C14", "note": "Trusted: pyvc's encoding of the Python subset, z3/cvc5, the contract of str.splitlines(keepends=True) for '\\n'-separated text (validated on every run by exhaustive comparison over {a,b,\\n}^<=7, bounded). The exhaustive small-scope comparison of the real functions with the Spec is a labelled stand-in.", "technique": TECH},
+    "C15": {"level": "proof", "text": "Frame (write-effect) contracts on the real parse path: for every Expression.parse (all classes incl. the optimizer-only ones), ParserState.parse_trivia, Parser.parse and every emitted template, each explored path's complete heap-write log (including writes made through callee contracts) is an obligation: writes go only to the per-parse ParserState and its components, the caller's pairs list, or objects the activation allocated - never to the expression, the parser, the rule table or module-level objects. The lazy OptimizedChoice pattern cache is proved idempotent (a function of `choices`, which has no writer on the parse path). History- and schedule-independence follow by confinement (stated, not mechanised).", "design_ref": "DESIGN.md section 4 / C15", "note": NOTE + " NOT proved: the construction side (Parser.__init__, from_grammar, Optimizer.optimize, passes, generate_module) is outside the dialect; it is covered by a bounded dynamic check (deep fingerprints of all shared objects before/after, history independence of observed parses, 8 threads). GIL-level atomicity and thread-safety of regex pattern objects are assumed.", "technique": TECH},
     "C16": {"level": "proof", "text": "Per terminal Spec clause a shift lemma is proved for all texts T, all k and all positions (startswith, one-code-point tests, EOI, the text PUSH records, fail()'s furthest-position update, len): the answers on <T, p+k> and <T[k:], p> agree up to the shift. The real terminals (interpreter and generated code, re-proved here), ParserState.__init__, ParserState.fail, Parser.parse and the emitted parse() are tied to those clauses by their contracts; an AST audit of every combinator's parse() and of the text its generate() emits is an obligation: positions are only saved, restored and handed on, only _SOI compares a position with a literal, no parsing pattern is anchored, every Expression class is classified.", "design_ref": "DESIGN.md section 4 / C16", "note": NOTE + " Trusted additionally: regex match(s,pos) and str.find(sub,pos) look only at s[pos:] (the latter validated exhaustively on small strings); induction over the expression tree for combinators (meta-argument backed by the audit). Differential stand-in over every k on small grammars.", "technique": TECH},
     "C18": {"level": "proof", "text": "PrattParser.parse_expr is executed symbolically over an arbitrary token sequence, arbitrary prefix/postfix/infix tables (uninterpreted membership/precedence/associativity functions) and free constructor callbacks, and proved to compute the precedence-climbing recurrence that defines binding by declared precedence and associativity: result tree, cursor position, SyntaxError exactly for malformed streams; recursion against its own contract, the operator loop by invariant. Unbounded in tables and stream length.", "design_ref": "DESIGN.md section 4 / C18", "note": "Trusted: pyvc's encoding, z3/cvc5, the recurrence as the meaning of 'binds according to declared precedence' (pest's PrattParser); a declarative binding characterisation is compared on all small tables/streams as a bounded stand-in. Callbacks are pure constructors; Stream.next/peek inlined. Partial correctness.", "technique": TECH},
     "C02": {"level": "proof", "text": "The node classes only the optimizer creates (SkipUntil, OptimizedChoice, RegexExpression; bounded repetitions delegate to unroll) are proved against contracts of their own for all inputs and states, in interpreter and generated code. Every arm of every pass - unroll, skip, inline_builtin, squash_choice, inline_silent_rules, Optimizer._optimize_skip_rule and the driver's applicability test - is run (the real functions) on schematic trees, including the shapes that must not be rewritten, and the before/after trees are obligations: alternative order and merged classes (for all code points), tags kept, SKIP silent and atomic, skip only where no trivia can match; complete line coverage of the pass functions by the schemas is itself an obligation.", "design_ref": "DESIGN.md section 4 / C02", "note": NOTE + " Bounded: finite set of schematic trees per arm. Meta-arguments (unchecked): Rule[SILENT](body) == body up to failure-label attribution; (!(l1|..|lk) ~ ANY)* == SkipUntil where no trivia can match (bounded differential stand-in); composition of passes.", "technique": TECH},
